@@ -81,6 +81,47 @@ theorem roundHalfEven_spec (x : Rat) :
         · rw [abs_le]; constructor <;> linarith
         · intro _; omega
 
+theorem abs_sub_div_unit (x u : Rat) (hu : 0 < u) (k : Rat) : |x - k / u| = |x * u - k| / u := by
+  have : x - k / u = (x * u - k) / u := by field_simp
+  rw [this, abs_div, abs_of_pos hu]
+
+theorem abs_sub_mul_unit (x u : Rat) (hu : 0 < u) (k : Rat) : |x - k * u| = |x / u - k| * u := by
+  have : x - k * u = (x / u - k) * u := by field_simp
+  rw [this, abs_mul, abs_of_pos hu]
+
+/-- `round(x, n)`: the result is `k` units of the `n`-th decimal digit, within half a unit of `x`, and on a
+tie `k` is even. The unit is `1/10^n` for `n ≥ 0` and `10^(-n)` for `n < 0`. -/
+theorem roundNdigits_spec (x : Rat) (n : Int) :
+    (0 ≤ n → ∃ k : Int, roundNdigits x n = (k : Rat) / (10 : Rat) ^ n.toNat ∧
+        |x - roundNdigits x n| ≤ (1 / 2) / (10 : Rat) ^ n.toNat ∧
+        (|x - roundNdigits x n| = (1 / 2) / (10 : Rat) ^ n.toNat → k % 2 = 0)) ∧
+    (n < 0 → ∃ k : Int, roundNdigits x n = (k : Rat) * (10 : Rat) ^ (-n).toNat ∧
+        |x - roundNdigits x n| ≤ (1 / 2) * (10 : Rat) ^ (-n).toNat ∧
+        (|x - roundNdigits x n| = (1 / 2) * (10 : Rat) ^ (-n).toNat → k % 2 = 0)) := by
+  constructor
+  · intro hn
+    simp only [roundNdigits, if_pos hn]
+    have hu : (0 : Rat) < (10 : Rat) ^ n.toNat := pow_pos (by norm_num) _
+    generalize (10 : Rat) ^ n.toNat = u at *
+    obtain ⟨h1, h2⟩ := roundHalfEven_spec (x * u)
+    refine ⟨roundHalfEven (x * u), rfl, ?_, ?_⟩
+    · rw [abs_sub_div_unit x u hu]
+      exact (div_le_div_iff_of_pos_right hu).mpr h1
+    · intro h
+      rw [abs_sub_div_unit x u hu] at h
+      exact h2 ((div_left_inj' (ne_of_gt hu)).mp h)
+  · intro hn
+    simp only [roundNdigits, if_neg (not_le.mpr hn)]
+    have hu : (0 : Rat) < (10 : Rat) ^ (-n).toNat := pow_pos (by norm_num) _
+    generalize (10 : Rat) ^ (-n).toNat = u at *
+    obtain ⟨h1, h2⟩ := roundHalfEven_spec (x / u)
+    refine ⟨roundHalfEven (x / u), rfl, ?_, ?_⟩
+    · rw [abs_sub_mul_unit x u hu]
+      exact mul_le_mul_of_nonneg_right h1 (le_of_lt hu)
+    · intro h
+      rw [abs_sub_mul_unit x u hu] at h
+      exact h2 (mul_right_cancel₀ (ne_of_gt hu) h)
+
 theorem pyTrunc_nonneg (x : Rat) (hx : 0 ≤ x) :
     0 ≤ pyTrunc x ∧ (pyTrunc x : Rat) ≤ x ∧ x < (pyTrunc x : Rat) + 1 := by
   simp only [pyTrunc, if_pos hx]
